@@ -5,11 +5,17 @@
    (matrix iterators), Model/TSource.v (sources).  Specification: `all_indexes` (row-major
    enumeration, Model/Transform.v), `expected` / `cexpected` (Proofs/OdometerP.v, Proofs/C09P.v):
    the q-th call returns the q-th element and the length total - q - 1, and (None, 0) from
-   q = total on. *)
+   q = total on.
+   Sources: the tensor-iterator theorems hold over ANY source term; where the elements matter
+   (owning iterators, presence of every yielded element) they are stated for a family with the
+   TensorMut "lens" behaviour and then, with no further hypothesis, for every `constructed` source
+   (Proofs/SrcWfP.v, Proofs/SrcLensP.v: the contract is proved by induction on the source term).
+   The matrix owning iterators likewise: generic lens family, then every well-formed matrix
+   source term (Matrix, MatrixRange incl. empty, MatrixReverse — Proofs/C09MatOwnedP.v). *)
 From Coq Require Import List ZArith NArith Bool Arith.
 From EasyML Require Import Base.Sx Model.Shape Model.Tensor Model.TSource Model.ShapeIter
   Model.MatrixIter Model.Transform Proofs.ShapeP Proofs.C01P Proofs.OdometerP Proofs.C09P
-  Proofs.C09OwnedP.
+  Proofs.C09OwnedP Proofs.C09MatOwnedP Proofs.C13P Proofs.SrcWfP Proofs.SrcLensP Proofs.C13CtorP.
 Import ListNotations.
 Open Scope N_scope.
 
@@ -116,6 +122,83 @@ Theorem C09_tensor_owned_moves_once : forall A (dflt : A) (t : tensor A) k, tens
     if flat x (lens_of (t_shape t)) <? N.of_nat k then Some dflt else t_get t x.
 Proof. exact @tensor_owned_moves_once. Qed.
 
+(* ... and, with no hypothesis on the source beyond "its constructors returned Ok": every source
+   term built from Tensor / Reverse / Range / Mask / Access / Transpose / Rename *)
+Theorem C09_owned_moves_once_constructed : forall A (dflt : A) (s : tsrc A) k, constructed s ->
+  let r := drive (ti_next_owned dflt) ti_len k (tensor_iter_from s) in
+  fst r = map (fun j => oexpected s (N.of_nat j)) (seq 0 k) /\
+  forall x, in_range x (lens_of (src_shape s)) ->
+    src_get (ti_source (snd r)) x =
+    if flat x (lens_of (src_shape s)) <? N.of_nat k then Some dflt else src_get s x.
+Proof. exact @ctor_owned_moves_once. Qed.
+
+(* every element an iterator over a constructed source hands out is present (never an
+   out-of-bounds unchecked access) and there are exactly `elements` of them *)
+Theorem C09_iter_values_present_constructed : forall A (s : tsrc A), constructed s ->
+  exists vals, map (src_get s) (all_indexes (lens_of (src_shape s))) = map Some vals /\
+               iter_values s = vals /\ length vals = N.to_nat (elements (src_shape s)).
+Proof. exact @ctor_iter_values. Qed.
+
+(* matrix owning iterators (row-major / column-major): call number q returns the ORIGINAL element
+   at place q, and after k calls exactly the first k places hold the placeholder; for any family
+   of matrix sources whose in-range writes behave like a lens ... *)
+Theorem C09_matrix_owned_moves_once : forall A (dflt : A) (P : msrc A -> Prop),
+  (forall s r c v, P s -> r < ms_rows s -> c < ms_cols s ->
+     exists s', ms_set s r c v = Some s' /\ P s' /\ ms_rows s' = ms_rows s /\ ms_cols s' = ms_cols s /\
+                ms_get s' r c = Some v /\
+                forall r' c', r' < ms_rows s -> c' < ms_cols s -> (r', c') <> (r, c) ->
+                              ms_get s' r' c' = ms_get s r' c') ->
+  forall rm (s : msrc A) k, P s -> 0 < ms_rows s -> 0 < ms_cols s ->
+  let rows := ms_rows s in let cols := ms_cols s in
+  let r := drive (mi_next_owned dflt) mi_len k (major_iter_from rm s) in
+  fst r = map (fun j => mexpected rm s (N.of_nat j)) (seq 0 k) /\
+  forall q, q < rows * cols ->
+    let p := mi_place rm rows cols q in
+    ms_get (mi_source (snd r)) (fst p) (snd p) =
+    if q <? N.of_nat k then Some dflt else ms_get s (fst p) (snd p).
+Proof. exact @matrix_owned_moves_once. Qed.
+
+(* ... in particular for every well-formed matrix source term: Matrix::from_flat_row_major,
+   MatrixRange::from (ranges clipped, possibly empty) and MatrixReverse::from establish msrc_wf,
+   and msrc_wf sources behave like a lens and have every in-range element *)
+Theorem C09_matrix_sources_wf : forall A,
+  (forall rows cols (data : list A) m, matrix_from_flat rows cols data = Ok m -> msrc_wf (MBase m)) /\
+  (forall (s : msrc A) rr cr, msrc_wf s -> msrc_wf (mrange_from s rr cr)) /\
+  (forall (s : msrc A) rv cv, msrc_wf s -> msrc_wf (MRev s rv cv)).
+Proof. exact (fun A => conj (@matrix_from_flat_wf A) (conj (@mrange_from_wf A) (@mrev_wf A))). Qed.
+
+Theorem C09_matrix_source_lens : forall A (s : msrc A), msrc_wf s -> forall r c v,
+  r < ms_rows s -> c < ms_cols s ->
+  exists s', ms_set s r c v = Some s' /\ msrc_wf s' /\ ms_rows s' = ms_rows s /\ ms_cols s' = ms_cols s /\
+             ms_get s' r c = Some v /\
+             forall r' c', r' < ms_rows s -> c' < ms_cols s -> (r', c') <> (r, c) ->
+                           ms_get s' r' c' = ms_get s r' c'.
+Proof. exact @msrc_lens. Qed.
+
+Theorem C09_matrix_source_total : forall A (s : msrc A), msrc_wf s -> forall r c,
+  r < ms_rows s -> c < ms_cols s -> exists x, ms_get s r c = Some x.
+Proof. exact @msrc_total. Qed.
+
+Theorem C09_wf_matrix_owned_moves_once : forall A (dflt : A) rm (s : msrc A) k,
+  msrc_wf s -> 0 < ms_rows s -> 0 < ms_cols s ->
+  let rows := ms_rows s in let cols := ms_cols s in
+  let r := drive (mi_next_owned dflt) mi_len k (major_iter_from rm s) in
+  fst r = map (fun j => mexpected rm s (N.of_nat j)) (seq 0 k) /\
+  forall q, q < rows * cols ->
+    let p := mi_place rm rows cols q in
+    ms_get (mi_source (snd r)) (fst p) (snd p) =
+    if q <? N.of_nat k then Some dflt else ms_get s (fst p) (snd p).
+Proof. exact @wf_matrix_owned_moves_once. Qed.
+
+(* an empty source (0xN / Nx0 view): nothing is yielded and the source is not touched *)
+Theorem C09_matrix_owned_empty : forall A (dflt : A) rm (s : msrc A) k,
+  ms_rows s = 0 \/ ms_cols s = 0 ->
+  let r := drive (mi_next_owned dflt) mi_len k (major_iter_from rm s) in
+  fst r = repeat (None, 0) k /\ mi_source (snd r) = s.
+Proof.
+  exact (fun A dflt => @matrix_owned_empty A dflt (fun _ => False) (fun s r c v H => match H with end)).
+Qed.
+
 (* matrix row-major and column-major iterators over any source, empty (0xN, Nx0) ones included:
    call number q returns the element at (q / columns, q mod columns) resp. (q mod rows, q / rows)
    and the length rows*columns - q - 1; from q = rows*columns on: (None, 0) *)
@@ -201,6 +284,17 @@ Example C09_nonvacuous :
    fst (drive mi_next mi_len 2 (major_iter_from true s)) = [(None, 0); (None, 0)]).
 Proof. vm_compute. repeat split; reflexivity. Qed.
 
+(* non-vacuity of the matrix owning theorem: a 2x2 range view (columns 1..3) of a 2x3 matrix is a
+   well-formed, non-empty source; three calls move out 2, 3, 5 and leave placeholders there *)
+Example C09_nonvacuous_matrix_owned :
+  let s := mrange_from (MBase (mkMatrix [1; 2; 3; 4; 5; 6]%Z 2 3)) (0, 2) (1, 2) in
+  msrc_wf s /\ 0 < ms_rows s /\ 0 < ms_cols s /\
+  fst (drive (mi_next_owned 0%Z) mi_len 3 (major_iter_from true s)) =
+    [(Some ((0, 0), Some 2%Z), 3); (Some ((0, 1), Some 3%Z), 2); (Some ((1, 0), Some 5%Z), 1)] /\
+  m_data (ms_base (mi_source (snd (drive (mi_next_owned 0%Z) mi_len 3 (major_iter_from true s))))) =
+    [1; 0; 0; 4; 0; 6]%Z.
+Proof. cbv zeta. split; [vm_compute; repeat split; (reflexivity || (right; discriminate))|]. vm_compute. repeat split; reflexivity. Qed.
+
 Print Assumptions C09_odometer_step.
 Print Assumptions C09_shape_iter_enumerates.
 Print Assumptions C09_enumeration_is_row_major.
@@ -226,3 +320,11 @@ Print Assumptions C09_major_with_index_true.
 Print Assumptions C09_major_with_index_true_owned.
 Print Assumptions C09_major_places_distinct.
 Print Assumptions C09_line_places_distinct.
+Print Assumptions C09_owned_moves_once_constructed.
+Print Assumptions C09_iter_values_present_constructed.
+Print Assumptions C09_matrix_owned_moves_once.
+Print Assumptions C09_matrix_sources_wf.
+Print Assumptions C09_matrix_source_lens.
+Print Assumptions C09_matrix_source_total.
+Print Assumptions C09_wf_matrix_owned_moves_once.
+Print Assumptions C09_matrix_owned_empty.
